@@ -58,7 +58,8 @@ type Conn struct {
 	numDropBadPickle  metrics.Counter
 
 	upMutex sync.RWMutex
-	up      bool // true until the conn goes down
+	up      bool          // true until the conn goes down
+	down    chan struct{} // closed when the conn goes down
 
 	wg sync.WaitGroup
 }
@@ -83,6 +84,7 @@ func NewConn(key, addr string, periodFlush time.Duration, pickle bool, connBufSi
 		In:                make(chan []byte, connBufSize),
 		key:               key,
 		up:                true,
+		down:              make(chan struct{}),
 		pickle:            pickle,
 		flush:             make(chan bool),
 		flushErr:          make(chan error),
@@ -169,6 +171,10 @@ func (c *Conn) getRedo() [][]byte {
 
 func (c *Conn) alive(alive bool) {
 	c.upMutex.Lock()
+	if c.up && !alive {
+		// let the owner of the conn know right away, instead of at its next loop iteration
+		close(c.down)
+	}
 	c.up = alive
 	log.Debugf("conn %s .up set to %v", c.key, alive)
 	c.upMutex.Unlock()
